@@ -257,3 +257,46 @@ Proof.
     intros y Hy. apply in_map_iff in Hy. destruct Hy as [z [<- Hz]].
     unfold klt. rewrite !Hf. apply Hh. exact Hz.
 Qed.
+
+Lemma NoDup_map_eq {A B : Type} (f : A -> B) : forall l x y,
+  NoDup (map f l) -> In x l -> In y l -> f x = f y -> x = y.
+Proof.
+  induction l as [|a l IH]; intros x y Hnd Hx Hy Hf; [destruct Hx|].
+  cbn in Hnd. inversion Hnd as [|? ? Hna Hnd']; subst.
+  destruct Hx as [Hx|Hx]; destruct Hy as [Hy|Hy]; subst.
+  - reflexivity.
+  - exfalso. apply Hna. rewrite Hf. apply in_map. exact Hy.
+  - exfalso. apply Hna. rewrite <- Hf. apply in_map. exact Hx.
+  - apply IH; assumption.
+Qed.
+
+Lemma msorted_key_eq {K V : Type} (cmp : K -> K -> comparison) (ok : cmp_ok cmp) :
+  forall (m : list (K * V)) x y, msorted cmp m -> In x m -> In y m -> fst x = fst y -> x = y.
+Proof. intros m x y Hs. apply NoDup_map_eq. apply (msorted_NoDup cmp ok). exact Hs. Qed.
+
+Lemma map_of_list_permutation {K V : Type} (cmp : K -> K -> comparison) (ok : cmp_ok cmp) :
+  forall l : list (K * V), NoDup (map fst l) -> Permutation (map_of_list cmp l) l.
+Proof.
+  intros l H. unfold map_of_list. change (fold_left _ l []) with (fold_left (ins cmp) l []).
+  apply (fold_ins_perm cmp ok l []). exact H.
+Qed.
+
+(* the shape of every map round trip of C17: keys and values are converted entry by entry (F), the
+   entries are written into a map, read back, converted back (G) and written into a map again *)
+Lemma map_of_list_roundtrip {K V K' V' : Type} (cmp : K -> K -> comparison) (cmp' : K' -> K' -> comparison)
+  (ok : cmp_ok cmp) (ok' : cmp_ok cmp') (F : K * V -> K' * V') (G : K' * V' -> K * V) :
+  forall m : list (K * V),
+  msorted cmp m ->
+  (forall x, In x m -> G (F x) = x) ->
+  (forall x y, In x m -> In y m -> fst (F x) = fst (F y) -> x = y) ->
+  map_of_list cmp (map G (map_of_list cmp' (map F m))) = m.
+Proof.
+  intros m Hs HGF Hinj. apply (map_of_list_perm cmp ok); [exact Hs|].
+  assert (Hnd : NoDup (map fst (map F m))).
+  { rewrite map_map. apply NoDup_map_inj_in; [exact Hinj|].
+    eapply NoDup_map_inv. apply (msorted_NoDup cmp ok). exact Hs. }
+  pose proof (map_of_list_permutation cmp' ok' (map F m) Hnd) as Hp.
+  eapply perm_trans; [apply Permutation_map; exact Hp|].
+  rewrite map_map. rewrite (map_ext_in _ (fun x => x)); [rewrite map_id; apply Permutation_refl|].
+  exact HGF.
+Qed.
